@@ -81,6 +81,18 @@ def xor_oracle(ctx):
         rt = call(d.parse, b.value, **kw)
         if not rt.ok or rt.value != data:
             return Failure("C15/xor/roundtrip", "parse(build(x)) != x for key %s data %s: %r" % (short(key, 60), short(data, 60), rt))
+        # a key taken from the context is the key in force where the ProcessXor stands (here: the index of the OUTER repetition),
+        # whatever its inner construct does to the context meanwhile
+        if isinstance(key, int) and len(data) >= 4:
+            from construct import Array, FixedSized, Byte
+            rows = [list(data[:4]), list(data[:4][::-1]), list(data[:4])]
+            rolling = Array(3, FixedSized(4, ProcessXor(this._index + key, Array(4, Byte))))
+            wantr = b"".join(bytes(b ^ ((i + key) & 0xff) for b in row) for i, row in enumerate(rows)) if key + 2 < 256 else None
+            if wantr is not None:
+                br = call(rolling.build, rows)
+                pr = call(rolling.parse, wantr)
+                if not br.ok or br.value != wantr or not pr.ok or [list(r) for r in pr.value] != rows:
+                    return Failure("C15/xor/index-key", "Array(3, FixedSized(4, ProcessXor(this._index + %d, Array(4, Byte)))): build -> %r, definition %s; parse -> %r" % (key, br, wantr.hex(), pr))
         # the key always starts cycling at the first byte of the region, wherever the region sits in the stream
         for off in (1, 3, len(key) + 1 if isinstance(key, bytes) else 2):
             from construct import Bytes
